@@ -235,14 +235,8 @@ func (ex *Exec) frameCheck(fin *State, kind string, fn *ssa.Function) {
 			for _, b := range elemBases[name] {
 				conds = append(conds, not(and(app(SBool, "(_ is elem)", r), eq(app(SRef, "ebase", r), b))))
 			}
-			// objects allocated during the call
-			fresh := func(x Term) Term {
-				return and(app(SBool, "(_ is obj)", x), app(SBool, ">=", app(SInt, "oid", x), ap0))
-			}
-			conds = append(conds, not(fresh(r)))
-			conds = append(conds, not(and(app(SBool, "(_ is fld)", r), fresh(app(SRef, "fbase", r)))))
-			conds = append(conds, not(and(app(SBool, "(_ is elem)", r), fresh(app(SRef, "ebase", r)))))
-			conds = append(conds, not(and(app(SBool, "(_ is fld)", r), app(SBool, "(_ is fld)", app(SRef, "fbase", r)), fresh(app(SRef, "fbase", app(SRef, "fbase", r))))))
+			// objects allocated during the call may differ
+			conds = append(conds, ex.refOldStrict(r, ap0))
 			goal := Term{fmt.Sprintf("(forall ((r!f Ref)) (=> %s (= (select %s r!f) (select %s r!f))))", and(conds...).S, ft.S, et.S), SBool}
 			ex.obligeNoAssume(kind, name, fin, goal, nil, nil)
 		}
@@ -289,6 +283,8 @@ func (ex *Exec) lvalueTargets(env *SpecEnv, m Expr, allowed, elemBases map[strin
 		}
 	}
 	switch x := m.(type) {
+	case *EStr:
+		whole[x.Val] = true
 	case *ESel:
 		base := env.eval(x.X)
 		ref, ok := env.objRef(base)
